@@ -213,7 +213,7 @@ func c15(c *Ctx) {
 	every := 4
 	repeats := 8
 	if c.Thorough() {
-		every, repeats = 1, 32
+		every, repeats = 1, 16
 	}
 	cases := l1Corpus(c, "c15", every)
 	t, s, u := corpus.MultiFilePackage("c15.multi", "c15multi")
@@ -237,7 +237,7 @@ func c15(c *Ctx) {
 		for _, p := range plugin.Sebuf {
 			pvs = append(pvs, pv{p, ""})
 		}
-		if c.Thorough() || len(rc.Files) > 1 {
+		if len(rc.Files) > 1 || (c.Thorough() && i%4 == int(c.Seed)%4) {
 			// rarely used plugin parameters switch on generators of their own (mock server, JSON rendering):
 			// the same variations apply to what they emit
 			pvs = append(pvs, pv{"go-http", "generate_mock=true"}, pv{"openapiv3", "format=json"})
